@@ -183,8 +183,9 @@ func runC19(c *Ctx) *Replay {
 		valid += "const string kSpansLines = \"first" + eol + "second" + eol + "\";" + eol
 	}
 	sc := Scenario{Kind: "cli", Prog: p.ID, Files: map[string]string{}, Extra: map[string]string{}}
-	class := []string{"valid", "valid", "syntax-error", "validation-error", "import", "import-missing"}[r.Intn(6)]
+	class := []string{"valid", "valid", "syntax-error", "validation-error", "import", "import-missing", "import-paths"}[r.Intn(7)]
 	text := valid
+	pre := "" // directory of the files the tool is pointed at
 	switch class {
 	case "syntax-error":
 		text = valid + "\nstruct Broken { int32 ; }\n"
@@ -192,54 +193,72 @@ func runC19(c *Ctx) *Replay {
 		text = valid + "\nstruct UsesGhost { GhostType g; }\n"
 	case "import":
 		text = "import \"impx.bop\"\n" + valid
-		sc.Files["impx.bop"] = impText
 	case "import-missing":
 		text = "import \"nowhere.bop\"\n" + valid
+	case "import-paths":
+		// two different files whose import paths differ only in their leading dots and
+		// slashes, spelled in several ways
+		pre = "w/"
+		text = "import \"../impx.bop\"\nimport \"./impx.bop\"\n" + valid
+		if r.Bool() {
+			text = "import \"./impx.bop\"\nimport \"../impx.bop\"\n" + valid
+		}
 	}
 	sc.Extra["class"] = class
+	textDir := pre
 	if r.Bool() {
 		sc.Extra["tool"] = "bebopc-go"
-		sc.Files["in.bop"] = text
-		sc.Files["out.go"] = oldOutput
-		sc.Args = append([]string{"-i", "in.bop", "-o", "out.go", "-package", "simpkg"}, goodFlags[r.Intn(len(goodFlags))]...)
-		sc.Extra["targets"] = "out.go"
+		sc.Files[pre+"in.bop"] = text
+		sc.Files[pre+"out.go"] = oldOutput
+		sc.Args = append([]string{"-i", pre + "in.bop", "-o", pre + "out.go", "-package", "simpkg"}, goodFlags[r.Intn(len(goodFlags))]...)
+		sc.Extra["targets"] = pre + "out.go"
 		switch r.Intn(8) {
 		case 0: // the output directory does not exist
 			sc.Args[3] = "nodir/out.go"
 		case 1: // the output is the input: a failed run must still leave the schema alone
-			sc.Args[3] = "in.bop"
-			delete(sc.Files, "out.go")
-			sc.Extra["targets"] = "in.bop"
+			sc.Args[3] = pre + "in.bop"
+			delete(sc.Files, pre+"out.go")
+			sc.Extra["targets"] = pre + "in.bop"
 		case 2: // no pre-existing output at all
-			delete(sc.Files, "out.go")
+			delete(sc.Files, pre+"out.go")
 		}
 	} else {
 		sc.Extra["tool"] = "bebopfmt"
 		switch r.Intn(3) {
 		case 0:
-			sc.Files["a.bop"] = text
-			sc.Args = []string{"-w", "a.bop"}
-			sc.Extra["targets"] = "a.bop"
+			sc.Files[pre+"a.bop"] = text
+			sc.Args = []string{"-w", pre + "a.bop"}
+			sc.Extra["targets"] = pre + "a.bop"
 		case 1:
-			sc.Files["d/a.bop"] = valid
-			sc.Files["d/b.bop"] = text
-			sc.Files["d/c.bop"] = "struct Plain { int32 a; }\n"
-			sc.Args = []string{"-w", "d"}
-			sc.Extra["targets"] = "d/a.bop,d/b.bop,d/c.bop"
+			sc.Files[pre+"d/a.bop"] = valid
+			sc.Files[pre+"d/b.bop"] = text
+			sc.Files[pre+"d/c.bop"] = "struct Plain { int32 a; }\n"
+			sc.Args = []string{"-w", pre + "d"}
+			sc.Extra["targets"] = pre + "d/a.bop," + pre + "d/b.bop," + pre + "d/c.bop"
+			textDir = pre + "d/"
 		default:
-			sc.Files["a.bop"] = text
-			sc.Files["b.bop"] = "message Other { 1 -> string s; }\n"
-			sc.Args = []string{"-w", "a.bop", "b.bop"}
-			sc.Extra["targets"] = "a.bop,b.bop"
+			sc.Files[pre+"a.bop"] = text
+			sc.Files[pre+"b.bop"] = "message Other { 1 -> string s; }\n"
+			sc.Args = []string{"-w", pre + "a.bop", pre + "b.bop"}
+			sc.Extra["targets"] = pre + "a.bop," + pre + "b.bop"
 		}
 		if r.Chance(1, 5) {
 			// stdout mode: nothing may be rewritten at all
 			sc.Args = sc.Args[1:]
 			sc.Extra["stdout_mode"] = "1"
 		}
-		if class == "import" || class == "import-missing" {
-			// bebopfmt does not resolve imports; keep the import file next to it anyway
-		}
+	}
+	// the imported files sit where the importing file looks for them
+	switch class {
+	case "import":
+		sc.Files[textDir+"impx.bop"] = impText
+	case "import-paths":
+		sc.Files[textDir+"impx.bop"] = impText
+		sc.Files[filepath.Clean(filepath.Join(textDir, "..", "impx.bop"))] = impTextY
+	}
+	if (class == "import" || class == "import-paths") && sc.Extra["tool"] == "bebopfmt" && strings.HasSuffix(textDir, "d/") {
+		// a whole directory is formatted: the imported file in it is a target like the others
+		sc.Extra["targets"] += "," + textDir + "impx.bop"
 	}
 	c.Log("C19", sc.Extra["tool"], class, p.ID)
 	// fault-free run: judged itself, and gives the operation list
